@@ -53,4 +53,20 @@ CLAIMED["C13"] = {
             "contracts in pv/rows.py.",
 }
 
+CLAIMED["C05"] = {
+    "technique": "static analysis: flow-sensitive alias / ownership / mutation-effect dataflow over every function "
+                 "(abstract values = kind + identity roots + storage roots + unknown-mediated roots with copy-flag guards), "
+                 "function summaries to a whole-program fixpoint, numpy/scipy view-vs-copy API table, counterfactual "
+                 "re-analysis to attribute a finding to the function where it originates",
+    "level": "Decides for all ~330 public operations, on every code path and therefore for every parameter value "
+             "(identity permutations, size-preserving reshapes, copy flags), that no statement can write storage reachable "
+             "from an operand unless the operation is documented in-place (then only the receiver), that no chain of "
+             "view-preserving operations connects an operand's storage to the result, that in-place operations copy values in "
+             "rather than keep references, and that constructors with copying enabled store fresh values. Violations are "
+             "reported only when every step of the chain is a modelled operation; anything else is UNDECIDED and listed.",
+    "note": "Trusted: the numpy/scipy view-vs-copy contracts in pv/npapi.py, Python augmented-assignment semantics, parameter "
+            "kinds from annotations and isinstance narrowing. May-analysis: does not prove bit-for-bit equality, only absence "
+            "of writes / of sharing.",
+}
+
 NOT_APPLICABLE = {}
